@@ -812,6 +812,192 @@ Proof.
     eapply valid_weaken; [apply valid_readonly; apply readonly_get_file|stab|intros; exact I].
 Qed.
 
+(* ---- lookups that are themselves interleaved with the writers, with torn views *)
+(* every byte of e is, at its position, a byte of the entry of some Put of id *)
+Definition pw (id e : bytes) : Prop :=
+  forall i b, nth_error e i = Some b -> exists d tm, PS id d tm /\ nth_error (entry id d tm) i = Some b.
+
+Lemma pw_nil : forall id, pw id [].
+Proof. intros id i b Hn. destruct i; discriminate. Qed.
+
+Lemma pw_good : forall fs id c, good_idx fs id c -> pw id c.
+Proof. intros fs id c [->|(d & tm & Hps & -> & _)]; [apply pw_nil|]. intros i b Hn. exists d, tm. auto. Qed.
+
+Lemma nth_error_firstn_some : forall (l : bytes) n k b, nth_error (firstn n l) k = Some b -> nth_error l k = Some b.
+Proof.
+  induction l as [|x l IH]; intros n k b Hn.
+  - rewrite firstn_nil in Hn. destruct k; discriminate.
+  - destruct n as [|n]; [destruct k; discriminate|]. destruct k as [|k]; cbn in *; [exact Hn|eapply IH; exact Hn].
+Qed.
+
+Lemma pw_mix : forall id j c o, pw id c -> pw id o -> (length o <= length c)%nat -> pw id (mix j c o).
+Proof.
+  intros id j c o Hc Ho Hl i b Hn. unfold mix in Hn.
+  destruct (le_lt_dec (length c) j) as [L|L].
+  - rewrite firstn_all2 in Hn by exact L. rewrite skipn_all2 in Hn by lia. rewrite app_nil_r in Hn. apply Hc. exact Hn.
+  - assert (length (firstn j c) = j) as Lf by (rewrite firstn_length; lia).
+    destruct (lt_dec i j) as [Li|Li].
+    + rewrite nth_error_app1 in Hn by lia. apply Hc. eapply nth_error_firstn_some; exact Hn.
+    + rewrite nth_error_app2 in Hn by lia. rewrite Lf, nth_error_skipn_add in Hn.
+      replace (j + (i - j))%nat with i in Hn by lia. apply Ho. exact Hn.
+Qed.
+
+Lemma view_idx_pw : forall s id torn v, Jc s -> view s (IdxP id) torn = Some v -> pw id v.
+Proof.
+  intros s id torn v (_ & _ & Hj3 & Hj4 & Hj5) Hv. unfold view in Hv.
+  destruct (sfiles s (IdxP id)) as [c|] eqn:Ec; [|discriminate].
+  pose proof (Hj3 _ _ Ec) as Hgc.
+  destruct torn as [j|]; [|inversion Hv; subst; eapply pw_good; exact Hgc].
+  destruct (slast s (IdxP id)) as [o|] eqn:Eo; [|inversion Hv; subst; eapply pw_good; exact Hgc].
+  inversion Hv; subst. pose proof (Hj4 _ _ Eo) as Hgo.
+  destruct (Hj5 _ _ Eo) as (c' & Ec' & Hn). rewrite Ec in Ec'. inversion Ec'; subst c'.
+  apply pw_mix; [eapply pw_good; exact Hgc|eapply pw_good; exact Hgo|].
+  destruct Hgc as [->|(d & tm & Hps & -> & _)]; [contradiction|]. rewrite (entry_length _ _ _ Hps).
+  destruct Hgo as [->|(d' & tm' & Hps' & -> & _)]; [cbn; lia|rewrite (entry_length _ _ _ Hps'); lia].
+Qed.
+
+Lemma pw_app_read : forall id acc v need, pw id acc -> pw id v ->
+  pw id (acc ++ firstn need (skipn (length acc) v)).
+Proof.
+  intros id acc v need Ha Hv i b Hn. destruct (lt_dec i (length acc)) as [L|L].
+  - rewrite nth_error_app1 in Hn by exact L. apply Ha. exact Hn.
+  - rewrite nth_error_app2 in Hn by lia. apply nth_error_firstn_some in Hn. rewrite nth_error_skipn_add in Hn.
+    replace (length acc + (i - length acc))%nat with i in Hn by lia. apply Hv. exact Hn.
+Qed.
+
+Lemma valid_read_full_pw : forall A (Q : A -> sys -> Prop) id fuel need acc (k : bytes -> prog A),
+  (forall e, validc (fun _ => pw id e) Q (k e)) ->
+  validc (fun _ => pw id acc) Q (read_full fuel (IdxP id) (length acc) need acc k).
+Proof.
+  intros A Q id fuel. induction fuel as [|f IH]; intros need acc k Hk; cbn [read_full]; [apply Hk|].
+  destruct (Nat.eqb need 0); [apply Hk|].
+  apply (v_op _ _ _ _ _ _ (fun r _ => match r with RBytes b => pw id (acc ++ b) | _ => pw id acc end)); [stab| |].
+  { intros s torn Js Ha. split; [apply (cstep_observing (ORead (IdxP id) (length acc) need) torn s I)|].
+    cbn [cstep fst snd]. destruct (view s (IdxP id) torn) as [v|] eqn:Ev; [|exact Ha].
+    apply pw_app_read; [exact Ha|]. eapply view_idx_pw; eassumption. }
+  intros r. destruct r as [| |n|b|n]; try apply Hk.
+  destruct (Nat.eqb (length b) 0) eqn:Eb.
+  - apply Nat.eqb_eq in Eb. destruct b; [|discriminate]. rewrite app_nil_r. apply Hk.
+  - rewrite <- app_length. apply IH. exact Hk.
+Qed.
+
+Definition lookup_hyps : Prop :=
+  no_hybrid H U /\ (forall d c, U d -> is_prefix c d -> H c = H d -> c = d) /\ U [].
+
+(* the output named by an entry assembled, byte by byte, from entries of Puts of id *)
+Definition pw_out (id out : bytes) : Prop := forall d0, U d0 -> H d0 = out -> exists tm, PS id d0 tm.
+
+Lemma pw_parse_out : forall id e out size tm,
+  no_hybrid H U -> pw id e -> parse_entry e id = Some (out, size, tm) -> pw_out id out.
+Proof.
+  intros id e out size tm Hnh Hpw Ep d0 Ud0 Hh.
+  destruct (parse_entry_strict _ _ _ _ _ Ep) as (_ & hid & hout & ss & st & Es & Lh & Lo & _ & _ & Hi & Ho & _).
+  assert (length id = hash_size_n) as Li.
+  { apply hex_decode_length in Hi. pose proof hex_size_hash. lia. }
+  subst out. apply (Hnh (fun d => exists t, PS id d t) hout d0 Ud0 Ho).
+  intros k b Hn.
+  assert (k < length hout)%nat as Lk by (apply nth_error_Some; congruence).
+  assert (nth_error e (3 + hex_size_n + 1 + k) = Some b) as Hc.
+  { rewrite Es. unfold entry_shape. rewrite nth_error_entry_out by assumption. exact Hn. }
+  destruct (Hpw _ _ Hc) as (d & t & Hps & He).
+  destruct (PS_ok _ _ _ Hps) as (Ud & _).
+  exists d. split; [exact Ud|]. split; [exists t; exact Hps|].
+  unfold entry in He. destruct (encode_entry_prefix id (H d) (Z.of_nat (length d)) t) as [X EX]. rewrite EX in He.
+  rewrite nth_error_entry_out in He; [exact He| |].
+  - rewrite hex_length, Li. symmetry; apply hex_size_hash.
+  - rewrite hex_length, H_len. pose proof hex_size_hash. lia.
+Qed.
+
+Lemma valid_used_pure : forall A (X : Prop) (Q : A -> sys -> Prop) p (k : prog A),
+  validc (fun _ => X) Q k -> validc (fun _ => X) Q (used_prog p k).
+Proof.
+  intros A X Q p k Hk. unfold used_prog. apply valid_observe; [exact I|stab|]. intros r.
+  destruct r; try exact Hk; (apply valid_observe; [exact I|stab|]; intros _; exact Hk).
+Qed.
+
+Lemma valid_get_pw : forall id, no_hybrid H U ->
+  validc (fun _ => True) (fun e _ => match e with Some (out, _, _) => pw_out id out | None => True end) (get_prog id).
+Proof.
+  intros id Hnh. unfold get_prog.
+  apply valid_observe; [exact I|stab|]. intros r.
+  destruct r; try (apply v_ret; [stab|auto]).
+  eapply valid_weaken; [|stab|intros s _ _; apply (pw_nil id)].
+  apply (valid_read_full_pw _ _ id _ _ []).
+  intros e. destruct (parse_entry e id) as [[[out size] tm]|] eqn:Ep.
+  - apply valid_used_pure. apply valid_observe; [exact I|stab|]. intros _.
+    apply v_ret; [stab|]. intros s _ Hpw. eapply pw_parse_out; eassumption.
+  - apply valid_observe; [exact I|stab|]. intros _. apply v_ret; [stab|auto].
+Qed.
+
+(* what an observer may see of any output file *)
+Lemma view_dat_any : forall s out torn v, Jc s -> view s (DatP out) torn = Some v ->
+  exists d0, U d0 /\ H d0 = out /\ is_prefix v d0.
+Proof.
+  intros s out torn v (Hi1 & Hj2 & _) Hv. unfold view in Hv.
+  destruct (sfiles s (DatP out)) as [c|] eqn:Ec; [|discriminate].
+  destruct (Hi1 _ _ Ec) as (d0 & Ud0 & Hh & Hp). exists d0. split; [exact Ud0|]. split; [exact Hh|].
+  destruct torn as [j|]; [|inversion Hv; subst; exact Hp].
+  destruct (slast s (DatP out)) as [o|] eqn:Eo; [|inversion Hv; subst; exact Hp].
+  inversion Hv; subst. destruct (Hj2 _ _ Eo) as (c' & Ec' & Ho). rewrite Ec in Ec'. inversion Ec'; subst.
+  eapply prefix_trans; [apply (mix_prefix j c' o Ho)|exact Hp].
+Qed.
+
+Definition bytes_post (id : bytes) (l : lookup bytes) : Prop :=
+  match l with Found d out _ _ => out = H d /\ exists tm, PS id d tm | NotFound => True end.
+
+Lemma valid_get_bytes_strong : forall id, lookup_hyps ->
+  validc (fun _ => True) (fun l _ => bytes_post id l) (get_bytes_prog H id).
+Proof.
+  intros id (Hnh & Hpc & Unil). unfold get_bytes_prog.
+  eapply valid_bind; [apply (valid_get_pw id Hnh)|].
+  intros [[[out size] tm]|]; [|apply v_ret; [stab|intros; exact I]].
+  unfold output_file_prog. cbn [bind].
+  assert (forall A (X : Prop) (Q : A -> sys -> Prop) p (k : path -> prog A) (f : path),
+            validc (fun _ => X) Q (k f) -> validc (fun _ => X) Q (bind (used_prog p (Ret f)) k)) as Hub.
+  { intros A X Q p k f Hk. unfold used_prog. cbn [bind]. apply valid_observe; [exact I|stab|]. intros r.
+    destruct r; cbn [bind]; try exact Hk; (apply valid_observe; [exact I|stab|]; intros _; exact Hk). }
+  apply Hub.
+  apply (v_op _ _ _ _ _ _ (fun r _ => pw_out id out /\
+            match r with RBytes v => exists d0, U d0 /\ H d0 = out /\ is_prefix v d0 | _ => True end)); [stab| |].
+  { intros s torn Js Hpo. split; [apply (cstep_observing (OReadAll (DatP out)) torn s I)|]. split; [exact Hpo|].
+    cbn [cstep fst snd]. destruct (view s (DatP out) torn) as [v|] eqn:Ev; [|exact I].
+    eapply view_dat_any; eassumption. }
+  intros r. cbv zeta.
+  match goal with |- context [bytes_eqb ?a ?b] => destruct (bytes_eqb a b) eqn:Eh end;
+    [|apply v_ret; [destruct r; stab|intros; exact I]].
+  apply bytes_eqb_eq in Eh.
+  apply v_ret; [destruct r; stab|]. intros s _ (Hpo & Hr). cbn [bytes_post].
+  destruct r as [| |n|v|n]; try (split; [symmetry; exact Eh|apply Hpo; [exact Unil|exact Eh]]).
+  destruct Hr as (d0 & Ud0 & Hh & Hp). assert (v = d0) by (apply (Hpc d0 v Ud0 Hp); congruence). subst v.
+  split; [symmetry; exact Eh|apply Hpo; assumption].
+Qed.
+
+(* the stronger post-condition of the calls *)
+Definition post2 (c : call) (r : cres) (s : sys) : Prop :=
+  post c r s /\ match c, r with CGetBytes id, XBytes l => bytes_post id l | _, _ => True end.
+
+Lemma post2_stable : forall c r, stablec (post2 c r).
+Proof.
+  intros c r. apply and_stable; [apply post_stable|]. destruct c, r; stab.
+Qed.
+
+Lemma valid_post_weaken : forall A (P : sys -> Prop) (Q Q' : A -> sys -> Prop) p,
+  validc P Q p -> (forall a s, Q a s -> Q' a s) -> validc P Q' p.
+Proof.
+  intros A P Q Q' p Hv Hq. induction Hv as [P Q0 a Hs Hr|P Q0 o k R Hs Hstep Hk IH].
+  - apply v_ret; [exact Hs|]. intros s Js Ps. apply Hq. apply Hr; assumption.
+  - apply (v_op _ _ _ _ _ _ R); [exact Hs|exact Hstep|]. intros r. apply IH. exact Hq.
+Qed.
+
+Lemma call_valid2 : lookup_hyps -> forall c, call_ok c -> validc (fun _ => True) (post2 c) (call_prog H c).
+Proof.
+  intros Hl c Hok. destruct c as [id chunks tm|id rd tm|id|id|id];
+    try (eapply valid_post_weaken; [apply (call_valid _ Hok)|intros a s Hp; split; [exact Hp|destruct a; exact I]]).
+  cbn [call_prog]. apply valid_bind_ret; [|intros b; apply (post2_stable (CGetBytes id) b)].
+  eapply valid_post_weaken; [apply (valid_get_bytes_strong id Hl)|].
+  intros l s Hb. split; [exact I|exact Hb].
+Qed.
+
 (* ---- C11: what holds in every state every schedule can reach *)
 Definition conc_run (callss : list (list call)) (fs0 : files) (sched : list (nat * option nat)) : list client * sys :=
   run_conc H sched (map (start H) callss, init_sys fs0).
@@ -927,22 +1113,50 @@ Proof.
   rewrite Hb in Hg. inversion Hg; subst. eexists. split; [eassumption|split; reflexivity].
 Qed.
 
-(* the statements for lookups that are themselves interleaved, operation by operation, with the
-   writers (and may be given torn views); not proved here *)
-Definition lookup_is_some_put_full_statement : Prop :=
+Lemma Forall2_nth : forall A B (R : A -> B -> Prop) l1 l2 k a b,
+  Forall2 R l1 l2 -> nth_error l1 k = Some a -> nth_error l2 k = Some b -> R a b.
+Proof.
+  intros A B R l1 l2 k a b Hf. revert k. induction Hf as [|x y l1 l2 Hxy Hf IH]; intros k Ha Hb.
+  - destruct k; discriminate.
+  - destruct k as [|k]; cbn in *; [inversion Ha; inversion Hb; subst; exact Hxy|eapply IH; eassumption].
+Qed.
+
+Lemma Forall2_len : forall A B (R : A -> B -> Prop) l1 l2, Forall2 R l1 l2 -> length l1 = length l2.
+Proof. intros A B R l1 l2 Hf. induction Hf; cbn; congruence. Qed.
+
+(* lookup_is_some_put: a GetBytes interleaved operation by operation with any writers, and served
+   torn views, returns only bytes that a Put of the system stored for that very id, with matching hash *)
+Theorem lookup_is_some_put : lookup_hyps ->
   forall callss fs0 sched,
-  Jc (init_sys fs0) -> Forall (Forall call_ok) callss -> no_hybrid H U ->
-  (forall d c, U d -> is_prefix c d -> H c = H d -> c = d) -> U [] ->
+  Jc (init_sys fs0) -> Forall (Forall call_ok) callss ->
   forall i calls cl k id d out size tm,
   nth_error callss i = Some calls -> nth_error (fst (conc_run callss fs0 sched)) i = Some cl ->
   nth_error calls k = Some (CGetBytes id) -> nth_error (results cl) k = Some (XBytes (Found d out size tm)) ->
   out = H d /\ exists tm', PS id d tm'.
+Proof.
+  intros Hl callss fs0 sched J0 Hok i calls cl k id d out size tm Ecalls Ecl Ecall Eres.
+  assert (sinv Jc Gc post2 call_ok callss (conc_run callss fs0 sched)) as [_ Hall].
+  { unfold conc_run. apply (run_conc_sound Jc Gc Gc_refl Gc_J H post2 post2_stable call_ok (call_valid2 Hl)).
+    apply (sinv_init Jc Gc H post2 call_ok (call_valid2 Hl)); assumption. }
+  pose proof (Forall2_nth _ _ _ _ _ _ _ _ Hall Ecalls Ecl) as (_ & done & Hres & Hcur).
+  assert (nth_error done k = Some (CGetBytes id)) as Edone.
+  { assert (k < length done)%nat as Lk.
+    { rewrite (Forall2_len _ _ _ _ _ Hres). apply nth_error_Some. congruence. }
+    destruct (cur cl) as [p|].
+    - destruct Hcur as (c & P & Ec & _). rewrite Ec in Ecall. rewrite nth_error_app1 in Ecall by exact Lk. exact Ecall.
+    - destruct Hcur as [Ec _]. rewrite <- Ec. exact Ecall. }
+  pose proof (Forall2_nth _ _ _ _ _ _ _ _ Hres Edone Eres) as [_ Hb]. exact Hb.
+Qed.
 
+(* the statement for lookups of a re-stored id that are themselves interleaved, operation by
+   operation, with the writers (and may be given torn views of the entry being rewritten: the
+   timestamps must then mix to an int64, which 19-digit timestamps with the same leading digit do);
+   not proved here *)
 Definition restore_invisible_full_statement : Prop :=
   forall callss fs0 sched id d0,
   Jc (init_sys fs0) -> Forall (Forall call_ok) callss ->
   idx_nonempty id (init_sys fs0) ->
-  (forall d tm, PS id d tm -> d = d0 /\ length (digits tm) = 19%nat) ->
+  (forall d tm, PS id d tm -> d = d0 /\ (10 ^ 18 <= tm < 2 * 10 ^ 18)%Z) ->
   forall i calls cl k,
   nth_error callss i = Some calls -> nth_error (fst (conc_run callss fs0 sched)) i = Some cl ->
   (nth_error calls k = Some (CGetBytes id) -> forall r, nth_error (results cl) k = Some r ->
@@ -1005,3 +1219,12 @@ Lemma conc_sound_hyps : forall H U PS, C11_hyps H U PS ->
   Jc H U PS (init_sys fs0) -> Forall (Forall (call_ok PS)) callss ->
   sinv (Jc H U PS) (Gc H U PS) (post H) (call_ok PS) callss (conc_run H callss fs0 sched).
 Proof. intros H U PS (H1 & H2 & H3). exact (conc_sound H U H1 H2 PS H3). Qed.
+
+Lemma lookup_is_some_put_hyps : forall H U PS, C11_hyps H U PS -> lookup_hyps H U ->
+  forall callss fs0 sched,
+  Jc H U PS (init_sys fs0) -> Forall (Forall (call_ok PS)) callss ->
+  forall i calls cl k id d out size tm,
+  nth_error callss i = Some calls -> nth_error (fst (conc_run H callss fs0 sched)) i = Some cl ->
+  nth_error calls k = Some (CGetBytes id) -> nth_error (results cl) k = Some (XBytes (Found d out size tm)) ->
+  out = H d /\ exists tm', PS id d tm'.
+Proof. intros H U PS (H1 & H2 & H3). exact (lookup_is_some_put H U H1 H2 PS H3). Qed.
